@@ -52,7 +52,8 @@ CLAIMS['C12'] = dict(
        'slices, dense siblings and the least-squares fit are dimension-consistent for symbolic sizes n_k >= 2; func_int, '
        'func_gets and func_int_general return well-formed tensors with the expected mode sizes; the outside-the-box test '
        'has both sides and keeps the fill value; the documented rejections (asymmetric box, unknown kind) are in place; '
-       'func_basis stores the linear term for every basis size >= 2 (abstract execution at m = 2, 3, 5).',
+       'func_basis stores the linear term for every basis size >= 2 (abstract execution at m = 2, 3, 5); no float is stored '
+       'into an integer buffer (an integer fill value does not make the result buffer integer).',
   note='Not decided (numerical core of the property): exactness on polynomials, differentiation matrices, fit accuracy, '
        'agreement of values between TT and dense routines.')
 CLAIMS['C14'] = dict(
@@ -62,7 +63,8 @@ CLAIMS['C14'] = dict(
        'by its own sum and as long as the population; the marginal / conditional contractions are dimension consistent; '
        'sample_square orthogonalises to core 0, reads the first marginal from core 0 and sweeps right over '
        'right-orthogonal cores; the pivot core whose entries are squared for the first marginal carries a power-of-two '
-       'normalisation (exponent-ledger facet); the LHS remainder is drawn without replacement and columns have length m.',
+       'normalisation (exponent-ledger facet); with unique=True every returned row set is a row subset of an np.unique result '
+       '(distinct-rows facet); the LHS remainder is drawn without replacement and columns have length m.',
   note='Not decided: that the conditionals multiply to the tensor entry (the distribution itself), uniqueness in '
        'distribution, goodness of fit.')
 CLAIMS['C20'] = dict(
@@ -70,7 +72,7 @@ CLAIMS['C20'] = dict(
   text='Decides the structural part only: the operand handed to the least-squares solver in svd_incomplete is a matrix and '
        'the right-hand side 1-/2-D (the defect that made the function raise for every input); contractions on the path '
        'are consistent where typed; the result is a list of d three-axis float cores; sample_tt returns '
-       '(int [rows,d], [d+1], [d]) as the consumer expects.',
+       '(int [rows,d], [d+1], [d]) as the consumer expects; the rank of the skeleton helper is max(1, min(cap, len - dropped)).',
   note='Not decided: recovery of the sampled tensor (numerical, generic), the block layout values.')
 
 CLAIMS['C01'] = dict(
@@ -99,7 +101,8 @@ CLAIMS['C11'] = dict(
        'with the expected mode sizes for unconstrained symbolic sizes (covers rank 1, d = 2, mode size 1, over-ranked cores); '
        'the truncated factorisations keep the rank floor max(1,.); no division / reciprocal / log with a data-derived, unguarded '
        'denominator flows into a returned tensor or into norm/sum/mean/mul_scalar/erank/accuracy; the -1 sentinel branch of '
-       'accuracy dominates the quotient; no square root of a possibly negative scalar product is returned unguarded.',
+       'accuracy dominates the quotient; no square root of a possibly negative scalar product is returned unguarded; no '
+       'emptiness test of a sample selection is applied to the size of its boolean mask (mean of an empty slice = NaN).',
   note='Not decided: overflow/underflow, LAPACK finiteness, NaN from user data. Accepted denominators are an explicit table '
        '(dense convenience path of accuracy). Grid sizes n_k >= 2 assumed for the Chebyshev routines.')
 
@@ -108,7 +111,8 @@ CLAIMS['C02'] = dict(
   text='Decides the structural part only: in the right-to-left sweep of truncate the factor kept in each finished core has '
        'orthonormal rows and the weights travel left, in eigen and SVD mode (the rule that found the SVD-mode defect); the three '
        'm-vs-n selectors of matrix_svd agree on every ordering; pivot, norm core and sweep start coincide; tail energies (sigma^2) '
-       'are compared with e^2 in one unit and, in the stabilised mode, at one power-of-two scale, with e rescaled by the norm; rank = max(1, min(cap, len - dropped)) on a bounded grid '
+       'are compared with e^2 in one unit and, in the stabilised mode, at one power-of-two scale, with e rescaled by the norm, '
+       'and are not formed as a difference of prefix sums; rank = max(1, min(cap, len - dropped)) on a bounded grid '
        'and the droppable tail is the longest with energy <= e^2; e and r reach every factorisation call and the final rounding '
        'of add_many; results are well formed with the input mode sizes.',
   note='Not decided: the inequality ||Y-Z|| <= e||Y||, quasi-optimal ranks as values, behaviour exactly at a threshold, rounding. '
@@ -163,7 +167,8 @@ CLAIMS['C13'] = dict(
   technique='symbolic 2x2 transfer-pattern check of the core slot stores + identity-pattern facet + shape typing + build-order / object-state (alias) rules',
   text='Decides the structural part only: with noise 0 the slot stores of ANOVA.cores_1 propagate [1, S] to [1, S + f] and close to '
        'f0 + sum f for every d; the chaining cores of the pair terms are identities in the two bond axes, constant along the mode '
-       'axis; order-1 results have ranks equal to r; the order-2 cap is forwarded; pair-term tensors are '
+       'axis; the stored pair term is 0 for a never observed index pair and conditional mean - f0 - f1 - f1 otherwise (path-wise '
+       'symbolic value); order-1 results have ranks equal to r; the order-2 cap is forwarded; pair-term tensors are '
        'dimension consistent; build_0 < build_1 < build_2 and f1 = conditional mean - f0, f0 = mean; cores/calc/sample never '
        'write arrays owned by the object; functional variant: coefficient offset agreement; noise from self.rand.',
   note='Not decided: values of conditional means, truncation error for order 2, ridge-fit accuracy.')
@@ -172,7 +177,8 @@ CLAIMS['C15'] = dict(
   text='Decides the structural part only: in both sweep directions of the beam search the candidate matrix and both halves of the '
        'extended index table enumerate the composite row in the same order and are filtered by the same selection; pivot = first '
        'core per direction; 2**(p/d) once per core; every reported value is get(Y, i) of the argument at the reported index; '
-       '(i_min, y_min, i_max, y_max) ordered by the comparison; optima_qtt rejections and back-mapping with the same q.',
+       '(i_min, y_min, i_max, y_max) ordered by the comparison on every return path; the candidates are re-ordered by the argsort '
+       'permutation unconditionally at every step; optima_qtt rejections and back-mapping with the checked exponent.',
   note='Not decided: exactness under a full beam / rank 1, numerical range of candidate norms (overflow of squares), '
        'optima_tt_maxvol.')
 CLAIMS['C17'] = dict(
@@ -180,7 +186,8 @@ CLAIMS['C17'] = dict(
   text='Decides the structural part only: core_qtt_to_tt merges binary modes first-core-fastest (little-endian), the index maps use '
        'ravel/unravel with equal dims, order="F" and equal column blocks (the same convention); core_tt_to_qtt at mode sizes '
        '2, 4, 8 returns q cores of mode size 2 whose outer bonds are exactly the original ranks and whose inner bonds chain, the '
-       'inner cores being orthonormal-row right factors of the successive truncations; '
+       'inner cores being orthonormal-row right factors of the successive truncations; the index maps answer a batch with a '
+       'batch and a single index with a single index on every return path; '
        'tt_to_qtt / qtt_to_tt results well formed; e, r forwarded; non-powers of two rejected, powers accepted.',
   note='Not decided: accuracy of the round trip; digit order produced by the halving loop as values.')
 CLAIMS['C18'] = dict(
@@ -189,8 +196,8 @@ CLAIMS['C18'] = dict(
        'and Chebyshev grids (arccos(cos u) = u on [0, pi]); index 0 / n-1 map to the documented box ends; scaling maps a, b to '
        'the canonical ends; after scaling and after rounding both clamps follow with matching bounds; unknown kinds, inconsistent '
        'option lengths and scalar options without d are rejected; option broadcasting, batches, grid_flat and cdf_getter are '
-       'dimension consistent with the right result shapes; the rows of grid_flat enumerate the multi-indices with the first '
-       'index fastest (layout facet).',
+       'dimension consistent with the right result shapes on every return path; the rows of grid_flat enumerate the '
+       'multi-indices with the first index fastest (layout facet); the empirical CDF keeps one step per sample.',
   note='Not decided: floating-point round trip at cell boundaries, nearest-node ties.')
 CLAIMS['C19'] = dict(
   technique='scalar-degree facet + symbolic 2x2 transfer pattern + shape typing + constant-folded index helpers',
@@ -198,7 +205,8 @@ CLAIMS['C19'] = dict(
        'vector_delta / matrix_delta store v into exactly one core; poly cores propagate and close the running sum; all '
        'constructors return well-formed tensors of the requested shape and rank profile and the flat random vector is cut into '
        'pieces of exactly n r r entries; index helpers reject out-of-range positions, normalise negatives and emit little-endian '
-       'digits (folded for q <= 3); zero entries of const only under their guard; random constructors draw from _rand(seed).',
+       'digits (folded for q <= 3); zero entries of const only under their guard; a float-documented option (shift of poly) '
+       'is never converted to an integer; random constructors draw from _rand(seed).',
   note='Not decided: distribution of random entries, entries of order one for rand_stab.')
 
 _PENDING = 'check not built yet in this session (see DESIGN.md section 7 build order); not claimed'
